@@ -7,6 +7,16 @@ for d in seeded/*/; do
   id=$(basename "$d")
   [ -f "$d/meta.json" ] || continue
   grep -q '"detected_by": "obsolete"' "$d/meta.json" && { echo "SWEEP $id obsolete"; continue; }
+  if grep -q '"detected_by": "not detected' "$d/meta.json"; then
+    # a change that does NOT break the property as stated (kept as a negative example): the check must stay quiet
+    prop=$(python3 -c "import json;print(json.load(open('$d/meta.json'))['breaks_property'])")
+    r=$(tools/trymutant.sh "$PWD/$d/patch.diff" "$prop" 2>&1 | grep "^RESULT" | head -1)
+    case "$r" in
+      *"exit=0"*) echo "SWEEP $id quiet-as-expected ($prop)" ;;
+      *) echo "SWEEP $id FALSE-ALARM by $prop :: $r" ;;
+    esac
+    continue
+  fi
   prop=$(python3 -c "import json,re;m=json.load(open('$d/meta.json'));print(re.match(r'(C\d+)', m['detected_by']).group(1))")
   r=$(tools/trymutant.sh "$PWD/$d/patch.diff" "$prop" 2>&1 | grep "^RESULT" | head -1)
   case "$r" in
